@@ -88,6 +88,7 @@ TABLE = {
         ("Proofs/VarintP.v", ["varint_roundtrip", "varint_bytes_len", "get_varint_sound"]),
         ("Proofs/PacketP.v", ["packet_roundtrip", "from_bytes_wf", "reencode_len", "to_bytes_total"]),
         ("Proofs/AcksP.v", ["feed_exact", "feed_sound", "add_pending_ack_exact", "feed_wf"]),
+        ("Proofs/AcksTopP.v", ["feed_keeps_max"]),
         ("Proofs/NPacketP.v", ["npacket_roundtrip", "prefix_roundtrip", "challenge_roundtrip"]),
         ("Proofs/TokenP.v", ["private_roundtrip", "token_roundtrip", "token_read_write_read"]),
     ], ""),
